@@ -34,7 +34,7 @@ def run(ctx):
     if not ctx.quick:
         models += [('exhaustive', m) for m in exhaustive_models()]
     for _ in range(n):
-        models.append(('random', gen_omen.gen_omen(rng)))
+        models.append(('random', gen_omen.gen_omen(rng, allow_unstartable=True)))
     ops, exp, meta, viol, samples = [], [], [], [], []
     dist = {'ngram': {}, 'letters': {}, 'warm_cache': {}, 'raise': 0}
     cases = nontrivial = guesses = 0
@@ -44,7 +44,8 @@ def run(ctx):
         spec = {'terminals': {}, 'grammar': [], 'omen': om}
         d = common.write_ruleset(os.path.join(root, f"o{i % 20}"), spec)
         warm = rng.random() < 0.5
-        targets = range(0, ctx.scale(7, 9))
+        space = sum(len(om['alphabet']) ** ln for ln in range(om['ngram'], len(om['ln']) + 1))
+        targets = range(0, 14) if space <= ctx.scale(1500, 20000) else range(0, ctx.scale(7, 9))
         try:
             r = corr_omen.run_case(d, om, rng, targets, warm)
         except Exception as e:
@@ -87,7 +88,7 @@ def run(ctx):
     return {'evaluations': cases, 'distinct_nontrivial': nontrivial, 'traces': cases,
             'rule': 'random OMEN models (ngram 2-5, 2-4 letters incl. non-ASCII, sparse/dense level tables, dead-end prefixes, '
                     'lengths at level 10) written as rule files, loaded by the real load_rules; MarkovCracker run to exhaustion for '
-                    'levels 0..6 with a fresh or a shared warmed Optimizer in shuffled level order; the full guess sequence is '
+                    'levels 0..13 (0..6 for large string spaces) with a fresh or a shared warmed Optimizer in shuffled level order; the full guess sequence is '
                     'compared with the Lean enumerator and, independently, with a brute-force level computation over all strings. '
                     'non-trivial = at least two non-empty levels and >=5 guesses; distinct by (ngram, letters, #guesses, #levels)',
             'samples': samples, 'disagreements': disagreements, 'violations': viol, 'distribution': dist,
